@@ -607,7 +607,7 @@ def outx_case(ctx, cs, answers=None):
             ret, exc = None, ex
         return tab, ret, exc, h
 
-    for ch, (tab, ret, exc, h) in _drive(run, answers, bound=cs["bound"], first_full=1, max_exec=300000):
+    for ch, (tab, ret, exc, h) in _drive(run, answers, bound=cs["bound"], first_full=cs.get("first_full", 1), max_exec=300000):
         ctx.evaluations += 1
         ctx.transitions += max(h.ncalls, 1)
         case = dict(cs, answers=_trim(ch.taken))
@@ -627,6 +627,10 @@ def outx_case(ctx, cs, answers=None):
     if R.improving_exchanges(tab0.tolist()):
         ctx.nontriv(digest(("outx", cs["table"])))
     ctx.count("outx:cases")
+    nr, nc = tab0.shape
+    ctx.flag("outx:shape:" + ("square" if nr == nc else "ncross>nparent" if nr > nc else "ncross<nparent"))
+    if (nr, nc) in ((4, 2), (2, 4)):
+        ctx.count(f"outx:tables-{nr}x{nc}")
 
 
 def outx_oracle(cs, tab0, score0, tab, ret, exc, h):
@@ -702,6 +706,26 @@ def outx_cases(tier, seed):
                 cost = M * (1 + d * (M - 1))
             out.append(dict(part="outx", table=table, dtype="int64", rng="Generator", seed=seed, bound=bound,
                             first_full_upto=ffu, _cost=max(1, cost * max(npairs, 1) * (d + 1))))
+    # the two non-square 8-entry shapes (ncross > nparent and ncross < nparent; 28 exchange pairs): one table per
+    # id-relabelling class over <= 3 ids (1094 per shape).  quick: the 128 classes over <= 2 ids with every answer class of
+    # the first pass, the 966 three-id classes with the default answers; thorough: every answer class of the first pass
+    # for all of them, and <= 1 deviation in later passes for the classes over <= 2 ids.  The full-neighbourhood local-minimum scan runs on every result.
+    witness = (0, 0, 1, 1, 0, 1, 0, 1)          # [[0,0],[1,1],[0,1],[0,1]]: only cross-to-cross exchanges 0<->2.. remove the selfs
+    for (r, c) in ((4, 2), (2, 4)):
+        M = 29
+        for flat in itertools.product(range(3), repeat=8):
+            if _canonical(flat) != flat:
+                continue
+            nid = len(set(flat))
+            table = [list(flat[i * c:(i + 1) * c]) for i in range(r)]
+            if T and (nid <= 2 or flat == witness):
+                bound, ff, cost = 1, 1, M * 40
+            elif T or nid <= 2 or flat == witness:
+                bound, ff, cost = 0, 1, M * 3
+            else:
+                bound, ff, cost = 0, 0, 3
+            out.append(dict(part="outx", table=table, dtype="int64", rng="Generator", seed=seed, bound=bound,
+                            first_full=ff, first_full_upto=0, _cost=cost * 28 * 2))
     # RandomState and another integer dtype on a few tables
     for table in ([[0, 0], [1, 1]], [[0, 0, 1], [1, 2, 2]], [[0, 1], [0, 1], [2, 2]]):
         out.append(dict(part="outx", table=table, dtype="int32", rng="RandomState", seed=seed, bound=1,
@@ -732,7 +756,7 @@ def _chunks(cases, nshards, cost=lambda c: c.get("_cost", 1)):
 
 def shards(tier, seed):
     T = tier == "thorough"
-    plan = {"sus": 120 if T else 48, "tiled": 8 if T else 4, "axis": 24 if T else 8, "outx": 140 if T else 60}
+    plan = {"sus": 120 if T else 48, "tiled": 8 if T else 4, "axis": 24 if T else 8, "outx": 200 if T else 80}
     out = []
     only = os.environ.get("C17_ONLY_PARTS")       # development aid (mutation experiments): default = all four parts
     for part, (gen, _) in PARTS.items():
@@ -754,7 +778,7 @@ def run_shard(spec, ctx):
     T = ctx.tier == "thorough"
     ctx.bounds.update({"sus_weights_len_max": 5 if T else 4, "sus_k_max": 8 if T else 6,
                        "tiled_options_max": 5 if T else 4, "tiled_size_max": 10 if T else 9,
-                       "axis_shape_max": [3, 3, 2], "outx_entries_max": 6, "outx_ids": 3,
+                       "axis_shape_max": [3, 3, 2], "outx_entries_max": 6, "outx_entries_4x2_2x4": 8, "outx_ids": 3,
                        "outx_later_pass_deviation_bound_5_6_entries": None if T else 1,
                        "outx_tables_5_6_entries": "all 3^n" if T else "one per id-relabelling class",
                        "axis_deviation_bound_when_over_3000_executions": None if T else 3})
@@ -775,7 +799,8 @@ def finalize(ctx, tier, seed):
         assert c.get(f"sus:answers:{kind}", 0) > 0, kind
     for zone in ("edge", "interior"):
         assert c.get(f"sus:answers:zone:{zone}", 0) > 0, zone
-    for f in ("axis:int-form", "axis:ndim3:naxes2", "axis:ndim2:naxes1", "axis:ndim1:naxes0", "tiled:remainder",
+    for f in ("axis:int-form", "axis:ndim3:naxes2", "axis:ndim2:naxes1", "axis:ndim1:naxes0", "tiled:remainder", "outx:shape:square",
+              "outx:shape:ncross>nparent", "outx:shape:ncross<nparent",
               "tiled:two-whole-tiles", "tiled:no-whole-tile"):
         assert f in ctx.flags, f
     # the guards below say "a clean verdict is not vacuous"; they depend on executions that passed the oracle, so they
